@@ -141,6 +141,9 @@ func extractIfChain(pk *packages.Package, stmts []ast.Stmt) ([]caseRow, bool) {
 	for i, st := range stmts {
 		is, ok := st.(*ast.IfStmt)
 		if !ok {
+			if _, isDecl := st.(*ast.DeclStmt); isDecl && started {
+				continue // a declaration between the rows (var l int)
+			}
 			if started {
 				rest = stmts[i:]
 				break
@@ -1011,13 +1014,22 @@ func C03(c *core.Ctx) {
 			continue
 		}
 		sw := firstSwitch(fd)
-		if sw == nil {
-			c.Und("R3.2", key, p.Pos(fd.Pos()), "no switch table found")
-			continue
+		var rows []caseRow
+		ok := false
+		at := fd.Pos()
+		if sw != nil {
+			rows, ok = extractSwitch(encPk, sw)
+			at = sw.Pos()
+		} else {
+			rows, ok = extractIfChain(encPk, fd.Body.List)
+			// the last marker may be the else branch: after <= 0xfc, == 0xfd and == 0xfe
+			// the only octet left is 0xff
+			if ok && len(rows) == 4 && rows[3].Op == "default" && rows[0].Op == "<=" && rows[0].Thr == 0xfc && rows[1].Op == "==" && rows[1].Thr == 0xfd && rows[2].Op == "==" && rows[2].Thr == 0xfe {
+				rows[3].Op, rows[3].Thr = "==", 0xff
+			}
 		}
-		rows, ok := extractSwitch(encPk, sw)
 		if !ok || len(rows) != 4 {
-			c.Und("R3.2", key, p.Pos(sw.Pos()), "switch is not a 4-row constant table")
+			c.Und("R3.2", key, p.Pos(at), "no 4-row constant table (switch or if-chain) found")
 			continue
 		}
 		msg := ""
@@ -1044,7 +1056,7 @@ func C03(c *core.Ctx) {
 				msg = fmt.Sprintf("row %d reads %v more bytes, want %d", i, r.Consts, w.k[1])
 			}
 		}
-		c.Decide(msg == "", "R3.2", key, p.Pos(sw.Pos()), "reader table canonical", pr.name+" deviates from the TLV number code: "+msg)
+		c.Decide(msg == "", "R3.2", key, p.Pos(at), "reader table canonical", pr.name+" deviates from the TLV number code: "+msg)
 	}
 	if fd := findDecl("", "ParseNat"); fd != nil {
 		sw := firstSwitch(fd)
